@@ -235,7 +235,31 @@ pub fn run(run: &mut Run) {
         d.u(rows as u64).u(cols as u64);
         let mut nontrivial = false;
         for step in 0..len {
-            let op = gen_op(rng, rows, cols);
+            let mut op = gen_op(rng, rows, cols);
+            // state-aware lists: a set_row/set_col whose list names only entries that are already there, drawn WITH
+            // replacement and exactly as long as the line's current weight (the result is a strict subset unless no
+            // index repeats), or the line's exact contents in another order
+            if !m.is_empty() && rng.chance(0.08) {
+                let k = rng.below(m.len());
+                let (r0, c0) = *m.iter().nth(k).unwrap();
+                if rng.coin() {
+                    let cur: Vec<usize> = m.iter().filter(|x| x.0 == r0).map(|x| x.1).collect();
+                    let mut list: Vec<usize> = (0..cur.len()).map(|_| *rng.pick(&cur)).collect();
+                    if rng.chance(0.3) {
+                        list = cur.clone();
+                        rng.shuffle(&mut list);
+                    }
+                    op = Op::SetRow(r0, list);
+                } else {
+                    let cur: Vec<usize> = m.iter().filter(|x| x.1 == c0).map(|x| x.0).collect();
+                    let mut list: Vec<usize> = (0..cur.len()).map(|_| *rng.pick(&cur)).collect();
+                    if rng.chance(0.3) {
+                        list = cur.clone();
+                        rng.shuffle(&mut list);
+                    }
+                    op = Op::SetCol(c0, list);
+                }
+            }
             d.s(&format!("{:?}", op));
             // classification before applying
             let noop_expected = match &op {
